@@ -22,6 +22,18 @@ HOF_SYNC = {
     'core::result::Result::and_then', 'core::result::Result::unwrap_or_else', 'core::option::Option::filter', 'core::iter::traits::iterator::Iterator::filter',
     'core::iter::traits::iterator::Iterator::any', 'core::iter::traits::iterator::Iterator::all', 'core::iter::traits::iterator::Iterator::find',
     'core::iter::traits::iterator::Iterator::position', 'core::option::Option::get_or_insert_with', 'core::option::Option::ok_or_else',
+    # iterator adaptors and consumers: lazy adaptors run their closure while the chain is consumed, which the crate does in the same function
+    'core::iter::sources::from_fn::from_fn', 'core::iter::traits::iterator::Iterator::partition', 'core::iter::traits::iterator::Iterator::filter_map',
+    'core::iter::traits::iterator::Iterator::find_map', 'core::iter::traits::iterator::Iterator::take_while', 'core::iter::traits::iterator::Iterator::skip_while',
+    'core::iter::traits::iterator::Iterator::map_while', 'core::iter::traits::iterator::Iterator::fold', 'core::iter::traits::iterator::Iterator::try_for_each',
+    'core::iter::traits::iterator::Iterator::try_fold', 'core::iter::traits::iterator::Iterator::inspect', 'core::iter::traits::iterator::Iterator::flat_map',
+    'core::iter::traits::iterator::Iterator::rposition', 'core::iter::traits::iterator::Iterator::max_by_key', 'core::iter::traits::iterator::Iterator::min_by_key',
+    'core::iter::traits::iterator::Iterator::count', 'core::iter::sources::repeat_with::repeat_with', 'core::iter::sources::successors::successors',
+    'core::option::Option::map_or_else', 'core::option::Option::or_else', 'core::option::Option::is_some_and', 'core::option::Option::is_none_or',
+    'core::result::Result::map_or', 'core::result::Result::map_or_else', 'core::result::Result::or_else', 'core::result::Result::is_ok_and', 'core::result::Result::is_err_and',
+    'core::option::Option::inspect', 'core::result::Result::inspect', 'core::result::Result::inspect_err', 'core::option::Option::take_if',
+    'alloc::vec::Vec::retain_mut', 'alloc::collections::vec_deque::VecDeque::retain_mut', 'core::slice::<impl [T]>::sort_by_key', 'core::slice::<impl [T]>::sort_by',
+    'alloc::vec::Vec::extract_if', 'core::bool::<impl bool>::then', 'alloc::vec::Vec::dedup_by_key',
 }
 HOF_STORE = {
     'alloc::boxed::Box::new', 'alloc::sync::Arc::new', 'std::sync::poison::mutex::Mutex::new',
@@ -73,6 +85,8 @@ def _closure_args(t):
             ty = clean_ty(a['pl']['ty']).lstrip('&').replace('mut ', '', 1) if a['pl']['ty'].startswith('&') else clean_ty(a['pl']['ty'])
             if ty.startswith('{closure:') or ty.startswith('{coroutine:'):
                 out.append(ty[ty.index(':') + 1:-1])
+        elif a['k'] == 'const' and a.get('fn'):
+            out.append(a['fn'])      # a function item passed by name (`.for_each(helper)`)
     return out
 
 
